@@ -345,6 +345,38 @@ def extra_c05_crash(prop, tier, seed):
     return res
 
 
+def extra_c09_ops(prop, tier, seed):
+    """Bounded stand-in (labelled, never counted) for the operator / prelude identities of C09 on the REAL
+    validators: 16 types x 17 values: A / B == B / A == (A or B); .and / .within == both; .ne == member and
+    not .eq; 16 prelude names == their Appendix D definitions.  Instances that disagree on the unchanged tree
+    are recorded in known_instances_C09.json (known finding F20); any other instance is a new violation."""
+    out, err = _replay(['u5d', 'find'], timeout=3000)
+    if out is None:
+        raise engine.Undecided('replay-failed', err)
+    known = set(json.load(open(os.path.join(engine.VERIF, 'known_instances_C09.json'))))
+    failing = out.get('failing', [])
+    new = [f for f in failing if f not in known]
+    res = {'violations': [], 'bounded': [{'check': 'choice / .and / .within / .ne-.eq / prelude-name identities on the real validators',
+                                          'bound': '16 types x 17 values, 6 .ne cases, 16 prelude names', 'comparisons': out.get('tried'),
+                                          'disagreeing_instances': len(failing), 'recorded_as_known_F20': len(failing) - len(new), 'new': len(new)}]}
+    if failing and len(new) < len(failing):
+        w = {'id': 'and-json##int .and 5##5'}
+        res['violations'].append({
+            'unit': 'U5d', 'label': 'identities:recorded-instances', 'fn': 'JSONValidator / CBORValidator (visit_control_operator, visit_identifier)',
+            'message': '%d recorded identity instances still fail' % (len(failing) - len(new)), 'clause': [], 'engine': 'replay',
+            'verifier_output': out.get('first', ''),
+            'fixed_witness': {'found': True, 'witness': w, 'real': out.get('first'), 'replay_args': ['u5d', 'replay', json.dumps(w)]}})
+    if new:
+        w = {'id': new[0]}
+        res['violations'].append({
+            'unit': 'U5d', 'label': 'identities:operator-and-prelude-identities', 'fn': 'validators',
+            'message': '%d identity instances that are NOT recorded fail (first: %s)' % (len(new), new[0]), 'clause': [], 'engine': 'replay',
+            'verifier_output': json.dumps(new[:20]),
+            'fixed_witness': {'found': True, 'witness': w, 'real': 'identity instance fails: ' + new[0],
+                              'replay_args': ['u5d', 'replay', json.dumps(w)]}})
+    return res
+
+
 def witness_u2(v, tier):
     out, err = _replay(['u2', 'find'])
     if out and out.get('found'):
@@ -625,10 +657,10 @@ PROPS = {
     },
     'C09': {
         'vx': ['U5', 'U7'],
-        'extra': [extra_u5_bounded('c09')],
+        'extra': [extra_u5_bounded('c09'), extra_c09_ops],
         'witness': witness_u5('c09'),
         'technique': 'Verus postconditions on mechanically extracted fragments (R7) of the real array matchers over the real cddl::ast::Occur + identity lemma',
-        'level_text': 'Occurrence identities only: the statement that turns an occurrence indicator into (min, max) iteration bounds inside seq_match_entry - in the JSON and in the CBOR validator - is proved equal to one spec function occ_bounds over the REAL cddl::ast::Occur type, and a lemma shows ? = 0*1, * = 0* (= *), + = 1*, *m = 0*m on that spec; a token-level frame obligation shows the occurrence value is not read again after that statement, so the rest of the matcher depends on it only through (min, max); the greedy loop that consumes (min, max) is itself under contract in both validators (unit U7, one iteration abstracted by a stub). Operator identities (/, .and, .within, .eq/.ne, ranges) and prelude-name identities live inside the visitors and are not decided.',
+        'level_text': 'Occurrence identities only: the statement that turns an occurrence indicator into (min, max) iteration bounds inside seq_match_entry - in the JSON and in the CBOR validator - is proved equal to one spec function occ_bounds over the REAL cddl::ast::Occur type, and a lemma shows ? = 0*1, * = 0* (= *), + = 1*, *m = 0*m on that spec; a token-level frame obligation shows the occurrence value is not read again after that statement, so the rest of the matcher depends on it only through (min, max); the greedy loop that consumes (min, max) is itself under contract in both validators (unit U7, one iteration abstracted by a stub). Operator identities (/, .and, .within, .eq/.ne, ranges) and prelude-name identities live inside the visitors and cannot be decided deductively; bounded differential stand-ins run them on the real validators (labelled bounded) and found genuine defects: a panic (F23, fixed) and 35 identity violations recorded as known finding F20 (`int .and 5` rejects 5; `.ne` rejects members outside u64; CBOR `nint` accepts non-negative integers; `unsigned` accepts negatives).',
         'level_note': 'Trusted: Verus+Z3; rustc agreement between the fragment and the enclosing function (R7 wraps the statement in a generated fn, nothing inside changes). Unverified: the greedy loop and seq_match_entry_once, map-group occurrence handling (validate_repeating_member_count etc.), every other identity named in C09.',
         'design_ref': 'DESIGN.md 4 U5',
         'scope': 'occurrence -> (min,max) in seq_match_entry (json.rs, cbor.rs)',
